@@ -15,10 +15,11 @@ import (
 // C16 — EAP-AKA' key hierarchy follows PRF' of RFC 5448 / RFC 9048.
 
 type c16Case struct {
-	IK  int `json:"ik_len"`
-	CK  int `json:"ck_len"`
-	ID  int `json:"identity_len"`
-	Pat int `json:"identity_pattern"`
+	IK    int  `json:"ik_len"`
+	CK    int  `json:"ck_len"`
+	ID    int  `json:"identity_len"`
+	Pat   int  `json:"identity_pattern"`
+	Shift bool `json:"shifted_followup"` // a second derivation whose CK'/identity boundary is moved by one octet (same concatenation)
 }
 
 func c16Identity(n, pat int) []byte {
@@ -66,12 +67,12 @@ func init() {
 				}
 				for ck := 0; ck <= 64; ck++ {
 					for _, id := range []int{0, 15, 31} {
-						evalC16(c, c16Case{ik, ck, id, (ik + ck + id) % 6})
-						evalC16(c, c16Case{ik, ck, id, 5})
+						evalC16(c, c16Case{IK: ik, CK: ck, ID: id, Pat: (ik + ck + id) % 6})
+						evalC16(c, c16Case{IK: ik, CK: ck, ID: id, Pat: 5})
 					}
 					if c.Thorough() {
 						for id := 0; id < 256; id++ {
-							evalC16(c, c16Case{ik, ck, id, id % 3 * 2})
+							evalC16(c, c16Case{IK: ik, CK: ck, ID: id, Pat: id % 3 * 2})
 						}
 					}
 				}
@@ -82,7 +83,7 @@ func init() {
 				}
 				for pat := 0; pat < 6; pat++ {
 					for _, kl := range [][2]int{{16, 16}, {1, 64}, {64, 1}, {33, 31}} {
-						evalC16(c, c16Case{kl[0], kl[1], id, pat})
+						evalC16(c, c16Case{IK: kl[0], CK: kl[1], ID: id, Pat: pat})
 					}
 				}
 			}
@@ -130,4 +131,18 @@ func evalC16(c *engine.Ctx, cs c16Case) {
 	}
 	c.Distinct(engine.Hash64(ke, emsk))
 	c.Sample("prf'", map[string]interface{}{"case": cs, "K_encr": engine.Hex(ke)})
+	// related second derivation in the same process: the last CK' octet moves into the identity, so that
+	// IK'|CK'|identity is the same octet string with a different boundary (a memo keyed without separators)
+	if cs.CK >= 2 && (cs.Shift || (cs.IK+cs.CK+cs.ID)%5 == 0) {
+		c.Evals++
+		ck2 := ck[:len(ck)-1]
+		id2 := append([]byte{ck[len(ck)-1]}, id...)
+		ke2, ka2, kr2, msk2, emsk2, err := eap.EapAkaPrimePRF(ik, ck2, string(id2))
+		w1, w2, w3, w4, w5 := ref.AKAPrimeKeys(ik, ck2, id2)
+		if err != nil || !bytes.Equal(ke2, w1) || !bytes.Equal(ka2, w2) || !bytes.Equal(kr2, w3) || !bytes.Equal(msk2, w4) || !bytes.Equal(emsk2, w5) {
+			x := cs
+			x.Shift = true
+			c.Violate("key/after-related-derivation", fmt.Sprintf("|IK'|=%d |CK'|=%d identity %d: the derivation with the CK'/identity boundary moved by one octet, made after the original one, does not match PRF' (err=%v)", cs.IK, cs.CK-1, cs.ID+1, err), x)
+		}
+	}
 }
